@@ -27,6 +27,14 @@
                overwrite, and so hide, a stale pointer).
                After every API call that reports success the configuration it was asked to install is checked
                (expectedName, callback, keys, sid, identity, CA list, ticket keys, PSK): `cfglost=`.
+               Connections after a fault reuse what the faulted one left in the application-owned objects: same session id and
+               keys with the same name (resumed or full - both fine), and - right after the connection in which the allocation
+               failed, if the client completed it, and again at the end - a NEW client session for a DIFFERENT server name on
+               the same session id (`xname=`: R refused, F failed, C/c completed): it must not complete unless it also does
+               in the fault-free run (TLS 1.3 refuses: the resumption PSK is bound to the SNI of its session).
+               Checkpoints (`fp=`): content of both key sets after loading, of the session id after every connection
+               (ticket, master secret, PSK with sni/alpn/cipher/early-data/lifetime) and of the server's session-cache
+               entry, compared with the fault-free run by props/C19.py.
      negative  twins: one verification step each that MUST refuse the handshake without any fault (expectedName mismatch,
                server chain not under the client's CA, client certificate not trusted by the server, rejecting certificate
                callback, different PSKs): under NO fault may a side listed in `neg` (1 client, 2 server) report
@@ -52,6 +60,7 @@
 #include <sys/wait.h>
 #include <execinfo.h>
 #include <sys/resource.h>
+#include <stdarg.h>
 
 void *__real_malloc(size_t n);
 void *__real_calloc(size_t a, size_t b);
@@ -175,6 +184,9 @@ static unsigned long g_app_bytes[2];
 static int g_hs_done[2][MAXCONN];     /* [side][connection #]: HANDSHAKE_COMPLETE event seen or matrixSslHandshakeIsComplete after pumping */
 static int g_nhs = 0;
 static int g_resumed[MAXCONN];        /* server side: abbreviated handshake / PSK accepted */
+static char g_xname[24] = "";         /* results of the different-name probes on the same session id: R refused by
+                                         matrixSslNewClientSession, F handshake failed, C client COMPLETED (resumed), c completed (full) */
+static char g_fp[6144] = "";          /* fingerprints of security-relevant object content at the checkpoints */
 static int g_neg_mask = 0;            /* negative twin: sides (1 client, 2 server) that must never complete */
 static char g_cfglost[256] = "";      /* security-relevant configuration missing after an API call that reported success */
 static uint64_t g_rx_hash[2] = { 1469598103934665603ULL, 1469598103934665603ULL };
@@ -591,6 +603,7 @@ static int new_server_keys(const scen_t *sc, const unsigned char *tname, unsigne
     return 0;
 }
 
+static void fp_keys(const char *cp, const sslKeys_t *k);
 /* application objects that live across the connections of a scenario */
 static int app_setup(const scen_t *sc)
 {
@@ -605,6 +618,7 @@ static int app_setup(const scen_t *sc)
         if (g_ckeys->tls13PskKeys == NULL) cfg_lost("matrixSslLoadTls13Psk:tls13PskKeys");
     }
     if (matrixSslNewSessionId(&g_sid, NULL) < 0) { g_sid = NULL; return -5; }
+    fp_keys("keys.server", g_skeys); fp_keys("keys.client", g_ckeys);
     return 0;
 }
 
@@ -616,17 +630,97 @@ static void sessions_free(void)
 
 static psProtocolVersion_t minor2ver(int m) { return m == 2 ? v_tls_1_1 : m == 4 ? v_tls_1_3 : v_tls_1_2; }
 
+
+/* ---------------------------------------------------------------- fingerprints of what API calls produced or updated
+   (compared field by field with the fault-free run by props/C19.py: a field that is empty where the fault-free run has
+   content, inside an object that exists, is a swallowed failure) */
+static uint32_t fnv(const unsigned char *p, size_t l) { uint32_t h = 2166136261u; for (size_t i = 0; p && i < l; i++) h = (h ^ p[i]) * 16777619u; return h; }
+static int nonzero(const unsigned char *p, size_t l) { for (size_t i = 0; i < l; i++) if (p[i]) return 1; return 0; }
+static void fp_add(const char *fmt, ...)
+{
+    va_list ap; size_t l = strlen(g_fp);
+    if (l + 400 > sizeof g_fp) return;
+    va_start(ap, fmt); vsnprintf(g_fp + l, sizeof g_fp - l, fmt, ap); va_end(ap);
+}
+static void fp_psk(const psTls13Psk_t *k)
+{
+    int n = 0; for (const psTls13Psk_t *q = k; q; q = q->next) n++;
+    fp_add("npsk=%d,", n);
+    if (!k) return;
+    fp_add("pskLen=%d,pskIdLen=%d,res=%d,params=%d,", (int) k->pskLen, (int) k->pskIdLen, k->isResumptionPsk ? 1 : 0, k->params ? 1 : 0);
+    if (k->params)
+        fp_add("sni=%d:%08x,alpn=%d:%08x,ver=%d.%d,pcipher=%d,med=%u,life=%u,", (int) k->params->sniLen, fnv(k->params->sni, k->params->sniLen),
+               (int) k->params->alpnLen, fnv(k->params->alpn, k->params->alpnLen), k->params->majVer, k->params->minVer, (int) k->params->cipherId,
+               (unsigned) k->params->maxEarlyData, (unsigned) k->params->ticketLifetime);
+}
+static void fp_keys(const char *cp, const sslKeys_t *k)
+{
+    int nid = 0, nca = 0, ntick = 0, chain = 0;
+    fp_add("%s{", cp);
+    if (k) {
+        for (const sslIdentity_t *i = k->identity; i; i = i->next) nid++;
+        for (const psX509Cert_t *c = k->CAcerts; c; c = c->next) nca++;
+        for (const psSessionTicketKeys_t *t = k->sessTickets; t; t = t->next) ntick++;
+        if (k->identity) for (const psX509Cert_t *c = k->identity->cert; c; c = c->next) chain++;
+        fp_add("ids=%d,chain=%d,priv=%d:%d,subjcn=%d,pubkey=%d:%d,ca=%d,casubj=%d,tick=%d,", nid, chain, k->identity ? (int) k->identity->privKey.type : 0,
+               k->identity ? (int) k->identity->privKey.keysize : 0, (k->identity && k->identity->cert && k->identity->cert->subject.commonName) ? 1 : 0,
+               (k->identity && k->identity->cert) ? (int) k->identity->cert->publicKey.type : 0, (k->identity && k->identity->cert) ? (int) k->identity->cert->publicKey.keysize : 0,
+               nca, (k->CAcerts && k->CAcerts->subject.commonName) ? 1 : 0, ntick);
+        if (k->sessTickets) fp_add("tickkey=%d:%d,", (int) k->sessTickets->symkeyLen, (int) k->sessTickets->hashkeyLen);
+        fp_psk(k->tls13PskKeys);
+    }
+    fp_add("};");
+}
+static void fp_sid(const char *cp, const sslSessionId_t *sid)
+{
+    fp_add("sid@%s{", cp);
+    if (sid) {
+        fp_add("idLen=%d,cid=%u,ms=%d,tick=%d,tickptr=%d,hint=%u,", (int) sid->idLen, (unsigned) sid->cipherId, nonzero(sid->masterSecret, SSL_HS_MASTER_SIZE),
+               (int) sid->sessionTicketLen, sid->sessionTicket ? 1 : 0, (unsigned) sid->sessionTicketLifetimeHint);
+        fp_psk(sid->psk);
+    }
+    fp_add("};");
+}
+/* the server's session cache entry of the connection that just ended (TLS <= 1.2).  The table is a static of matrixssl.c: its
+   address comes from the symbol table (props/C19.py: nm, the harness is linked non-PIE) */
+static void fp_cache(const char *cp, const sslSessionId_t *sid)
+{
+    const char *a = getenv("H_FAULT_SESSTAB");
+    if (!a || !sid || sid->idLen == 0) return;
+    sslSessionEntry_t *tab = (sslSessionEntry_t *) (uintptr_t) strtoull(a, NULL, 16);
+    if (!tab) return;
+    for (int i = 0; i < SSL_SESSION_TABLE_SIZE; i++)
+        if (nonzero(tab[i].id, SSL_MAX_SESSION_ID_SIZE) && memcmp(tab[i].id, sid->id, sid->idLen < SSL_MAX_SESSION_ID_SIZE ? sid->idLen : SSL_MAX_SESSION_ID_SIZE) == 0) {
+            fp_add("cache@%s{found=1,ms=%d,cipher=%d,ver=%d.%d,ems=%d,};", cp, nonzero(tab[i].masterSecret, SSL_HS_MASTER_SIZE),
+                   tab[i].cipher ? (int) tab[i].cipher->ident : 0, tab[i].majVer, tab[i].minVer, (int) tab[i].extendedMasterSecret);
+            return;
+        }
+}
+
+/* server_name extension for the ClientHello (the application owns it and deletes it after the session is created) */
+void __wrap_free(void *p);
+static tlsExtension_t *mk_sni(const char *host)
+{
+    tlsExtension_t *ext = NULL; unsigned char *data = NULL; int32 len = 0;
+    if (matrixSslNewHelloExtension(&ext, NULL) < 0) return NULL;
+    if (matrixSslCreateSNIext(NULL, (unsigned char *) host, (int32) strlen(host), &data, &len) < 0) { matrixSslDeleteHelloExtension(ext); return NULL; }
+    /* `data` was allocated by the library and is released by the application: through the tracked free */
+    if (matrixSslLoadHelloExtension(ext, data, len, EXT_SNI) < 0) { __wrap_free(data); matrixSslDeleteHelloExtension(ext); return NULL; }
+    __wrap_free(data);
+    return ext;
+}
+
 /* one connection: create both sessions, run the handshake; returns 0 when both sides completed */
-static int connect_once(const scen_t *sc, const char *ph_new, const char *ph_hs)
+static int connect_named(const scen_t *sc, const char *expected, int probe, const char *ph_new, const char *ph_hs)
 {
     int32 rc; sslSessOpts_t so; psProtocolVersion_t v[1]; psCipher16_t suites[1]; int nsuites = 0;
-    int idx = g_nhs < MAXCONN ? g_nhs : MAXCONN - 1; g_nhs++;
-    const char *expected = sc->expected ? sc->expected : "localhost";
+    int idx = 0; tlsExtension_t *sni;
+    if (!probe) { idx = g_nhs < MAXCONN ? g_nhs : MAXCONN - 1; g_nhs++; }
     PHASE(ph_new);
     sessions_free();
     memset(&g_c, 0, sizeof g_c); memset(&g_s, 0, sizeof g_s); g_s.is_server = 1;
     q_init(&g_c2s); q_init(&g_s2c);
-    ent_seed(g_seed + (uint64_t) idx * 7919);
+    ent_seed(g_seed + (uint64_t) (probe ? 100 + strlen(g_xname) : idx) * 7919);
     g_cb_reject_client = sc->cb_reject;
     v[0] = minor2ver(sc->minor);
     memset(&so, 0, sizeof so);
@@ -639,7 +733,10 @@ static int connect_once(const scen_t *sc, const char *ph_new, const char *ph_hs)
     if (matrixSslSessOptsSetClientTlsVersions(&so, v, 1) < 0) return -3;
     if (sc->ticket) so.ticketResumption = 1;
     if (sc->suite) { suites[0] = (psCipher16_t) strtol(sc->suite, NULL, 16); nsuites = 1; }
-    rc = matrixSslNewClientSession(&g_c.ssl, g_ckeys, g_sid, nsuites ? suites : NULL, (uint8_t) nsuites, cb_client, expected, NULL, NULL, &so);
+    sni = mk_sni(expected);
+    if (sni == NULL) return -6;
+    rc = matrixSslNewClientSession(&g_c.ssl, g_ckeys, g_sid, nsuites ? suites : NULL, (uint8_t) nsuites, cb_client, expected, sni, NULL, &so);
+    matrixSslDeleteHelloExtension(sni);
     if (rc != MATRIXSSL_REQUEST_SEND) { if (rc < 0) g_c.ssl = NULL; return -4; }
     /* the call reported success: what it was asked to install must be installed */
     if (g_c.ssl->expectedName == NULL || strcmp(g_c.ssl->expectedName, expected) != 0) cfg_lost("matrixSslNewClientSession:expectedName");
@@ -648,10 +745,33 @@ static int connect_once(const scen_t *sc, const char *ph_new, const char *ph_hs)
     if (g_c.ssl->sid != g_sid) cfg_lost("matrixSslNewClientSession:sid");
     PHASE(ph_hs);
     pump();
-    g_hs_done[0][idx] = g_c.done_events > 0 || (g_c.ssl && matrixSslHandshakeIsComplete(g_c.ssl));
-    g_hs_done[1][idx] = g_s.done_events > 0 || (g_s.ssl && matrixSslHandshakeIsComplete(g_s.ssl));
-    if (g_s.ssl) g_resumed[idx] = ((g_s.ssl->flags & SSL_FLAGS_RESUMED) || g_s.ssl->sec.tls13UsingPsk) ? 1 : 0;
-    return (g_hs_done[0][idx] && g_hs_done[1][idx]) ? 0 : -5;
+    int cd = g_c.done_events > 0 || (g_c.ssl && matrixSslHandshakeIsComplete(g_c.ssl));
+    int sd = g_s.done_events > 0 || (g_s.ssl && matrixSslHandshakeIsComplete(g_s.ssl));
+    int rs = g_s.ssl && ((g_s.ssl->flags & SSL_FLAGS_RESUMED) || g_s.ssl->sec.tls13UsingPsk);
+    if (probe) return cd ? (rs ? 2 : 1) : -5;
+    g_hs_done[0][idx] = cd; g_hs_done[1][idx] = sd; g_resumed[idx] = rs ? 1 : 0;
+    return (cd && sd) ? 0 : -5;
+}
+static int connect_once(const scen_t *sc, const char *ph_new, const char *ph_hs)
+{ return connect_named(sc, sc->expected ? sc->expected : "localhost", 0, ph_new, ph_hs); }
+
+/* negative twin ACROSS connections: a new client session on the SAME application-owned session id (whatever the earlier
+   connections - possibly under a fault - left in it) but for a DIFFERENT server name.  It must not complete: either
+   matrixSslNewClientSession refuses (TLS 1.3: the resumption PSK is bound to the server name of the original session,
+   RFC 8446 4.6.1) or the full handshake fails on the name check of the certificate. */
+static void xname_probe(const scen_t *sc)
+{
+    size_t l = strlen(g_xname);
+    if (l + 2 > sizeof g_xname || !g_sid || !g_ckeys || !g_skeys) return;
+    int r = connect_named(sc, "other.example.com", 1, "xname-new", "xname-handshake");
+    g_xname[l] = (r == 2) ? 'C' : (r == 1) ? 'c' : (r == -4) ? 'R' : 'F'; g_xname[l + 1] = 0;
+    sessions_free();
+}
+/* checkpoint after a connection (handshake, data, post-handshake messages, closure all done) */
+static void checkpoint(const char *cp)
+{
+    fp_sid(cp, g_sid);
+    fp_cache(cp, g_sid);
 }
 
 static unsigned char APP_UP[20000], APP_DOWN[3000];
@@ -700,6 +820,11 @@ static void teardown(void)
    (a later connection can overwrite - and so hide - a stale pointer left in the session id or the keys) */
 static int g_stop_after_fault = 0;
 #define STOP_NOW (g_stop_after_fault && g_mode == M_CHILD)
+/* plain scenarios: right after the connection during which the allocation failed, try the different-name session (a later
+   same-name connection would replace - and so repair - a PSK that lost its server name) */
+static int g_probed = 0;
+#define PROBE_NOW (!g_stop_after_fault && g_mode == M_CHILD && !g_probed && g_nhs > 0 && g_hs_done[0][(g_nhs < MAXCONN ? g_nhs : MAXCONN) - 1])
+/* (only when the client COMPLETED the connection in which the allocation failed: a failure that was reported needs no probe) */
 
 static void sc_tls(const scen_t *sc)
 {
@@ -717,15 +842,17 @@ static void sc_tls(const scen_t *sc)
     /* connection 1: full handshake */
     if (connect_once(sc, "new", "handshake") < 0) g_ok = 0;
     if (g_ok && exchange() < 0) g_ok = 0;
-    if (g_ok) closure();
+    if (g_ok) { closure(); checkpoint("conn1"); }
     if (STOP_NOW) goto down;
+    if (PROBE_NOW) { g_probed = 1; xname_probe(sc); }
     /* connection 2: resumed (session id / ticket / TLS 1.3 PSK from the NewSessionTicket) */
     if (g_ok) {
         if (connect_once(sc, "new-resumed", "handshake-resumed") < 0) g_ok = 0;
         if (g_ok && exchange() < 0) g_ok = 0;
-        if (g_ok) closure();
+        if (g_ok) { closure(); checkpoint("conn2"); }
     }
     if (STOP_NOW) goto down;
+    if (PROBE_NOW) { g_probed = 1; xname_probe(sc); }
     if (g_ok && sc->plan == 1) {
         /* the server is restarted with another ticket key: the client's ticket is refused, a full handshake follows and
            the server issues a NEW ticket that replaces the one held in the application's session id (renewal) */
@@ -733,14 +860,18 @@ static void sc_tls(const scen_t *sc)
         sessions_free();
         matrixSslDeleteKeys(g_skeys); g_skeys = NULL;
         if (new_server_keys(sc, TICKET_NAME2, 0x3c) < 0) g_ok = 0;
+        if (g_ok) fp_keys("keys.server2", g_skeys);
         if (g_ok && connect_once(sc, "new-renewal", "handshake-renewal") < 0) g_ok = 0;
         if (g_ok && exchange() < 0) g_ok = 0;
-        if (g_ok) closure();
+        if (g_ok) { closure(); checkpoint("conn3"); }
         if (STOP_NOW) goto down;
+        if (PROBE_NOW) { g_probed = 1; xname_probe(sc); }
         /* connection 4: resumption with the renewed ticket */
         if (g_ok && connect_once(sc, "new-resumed2", "handshake-resumed2") < 0) g_ok = 0;
-        if (g_ok) closure();
+        if (g_ok) { closure(); checkpoint("conn4"); }
     }
+    /* last: the different-name probe on whatever the connections left in the session id (also in the fault-free run) */
+    if (!STOP_NOW && (g_mode != M_CHILD || g_ok)) xname_probe(sc);
 down:
     teardown();
 }
@@ -777,7 +908,7 @@ extern int __lsan_do_recoverable_leak_check(void) __attribute__((weak));
 
 static void verdict(char tag)
 {
-    char b[4096]; int n;
+    static char b[12288]; int n;
     unsigned long leaks = 0; char ls[1200] = ""; int ln = 0;
     if (g_nlive) for (unsigned i = 0; i < LIVE_CAP; i++) if (g_live[i].p && g_live[i].p != (void *) 1) {
         leaks++;
@@ -792,11 +923,11 @@ static void verdict(char tag)
     for (int i = 0; i < MAXCONN; i++) { cd[i] = g_hs_done[0][i] ? '1' : '0'; sd[i] = g_hs_done[1][i] ? '1' : '0'; rs[i] = g_resumed[i] ? '1' : '0'; }
     cd[MAXCONN] = sd[MAXCONN] = rs[MAXCONN] = 0;
     n = snprintf(b, sizeof b, "%c k=%ld pid=%d scenario=%s allocs=%ld nfail=%ld ok=%d fault_api=%s fault_side=%c fault_phase=%s fault_rc=%s%d first_err=%s:%d "
-                 "cdone=%s sdone=%s resumed=%s nhs=%d neg=%d app_c=%lu app_s=%lu rxh=%016llx%016llx cfglost=%s leaks=%lu leak_sites=%s foreign_free=%lu lsan=%d undoc=%s\n",
+                 "cdone=%s sdone=%s resumed=%s xname=%s nhs=%d neg=%d app_c=%lu app_s=%lu rxh=%016llx%016llx cfglost=%s leaks=%lu leak_sites=%s foreign_free=%lu lsan=%d undoc=%s fp=%s\n",
                  tag, g_fail_k, (int) getpid(), g_scen, g_k, g_nfail, g_ok, A_NAME[g_fault_api], g_fault_side, g_fault_phase,
                  g_fault_rc_known ? "" : "?", g_fault_rc, A_NAME[g_first_err_api], g_first_err_rc,
-                 cd, sd, rs, g_nhs, g_neg_mask, g_app_bytes[0], g_app_bytes[1], (unsigned long long) g_rx_hash[0], (unsigned long long) g_rx_hash[1],
-                 g_cfglost[0] ? g_cfglost : "-", leaks, ls[0] ? ls : "-", g_foreign_free, lsan, g_undoc[0] ? g_undoc : "-");
+                 cd, sd, rs, g_xname[0] ? g_xname : "-", g_nhs, g_neg_mask, g_app_bytes[0], g_app_bytes[1], (unsigned long long) g_rx_hash[0], (unsigned long long) g_rx_hash[1],
+                 g_cfglost[0] ? g_cfglost : "-", leaks, ls[0] ? ls : "-", g_foreign_free, lsan, g_undoc[0] ? g_undoc : "-", g_fp[0] ? g_fp : "-");
     (void) n; wr(b);
 }
 
